@@ -323,6 +323,15 @@ func c15Enum(thorough bool, f func(k c15Case)) {
 		}
 		emit("remote-view", goodS)
 		emit("remote-view-raw", goodP)
+		// series whose range is no whole number of steps, carrying exactly the floor((until-from)/step) values the
+		// decoder takes
+		for _, d := range [][3]uint32{{1000, 1005, 10}, {1000, 1015, 10}, {1000, 1001, 2}, {7, 9, 5}, {1699999990, 1700000001, 2}} {
+			b := append([]byte{}, h...)
+			for i := 0; i < k; i++ {
+				b = append(b, series(d[0], d[1], d[2], int((d[1]-d[0])/d[2]))...)
+			}
+			emit("remote-view", b)
+		}
 		for l := 0; l < len(goodS); l += 3 {
 			emit("remote-view", goodS[:l])
 		}
